@@ -46,16 +46,18 @@ type CMsg struct {
 
 // CCase is one case printed by GossipCrashMC.
 type CCase struct {
-	Fl    string          `json:"fl"`
-	Topic string          `json:"topic"`
-	M     CMsg            `json:"m"`
-	Bytes string          `json:"bytes"`
-	Recv  string          `json:"recv"`
-	Mode  string          `json:"mode"`  // "handle" | "send" | "stress"
-	Ver   string          `json:"ver"`   // envelope version class
-	Tp    string          `json:"tp"`    // class of the pubsub topic field
-	Instv string          `json:"instv"` // instance id value when m.inst is false
-	Raw   json.RawMessage `json:"-"`     // the JSON text TLC printed (goes into the trace unchanged)
+	Fl      string          `json:"fl"`
+	Topic   string          `json:"topic"`
+	M       CMsg            `json:"m"`
+	Bytes   string          `json:"bytes"`
+	Recv    string          `json:"recv"`
+	Mode    string          `json:"mode"`    // "handle" | "send" | "stress"
+	Ver     string          `json:"ver"`     // envelope version class
+	Tp      string          `json:"tp"`      // class of the pubsub topic field
+	Instv   string          `json:"instv"`   // instance id value when m.inst is false
+	Trace   string          `json:"trace"`   // class of the Envelope.trace field
+	Tracing string          `json:"tracing"` // node mode: "on" | "off"
+	Raw     json.RawMessage `json:"-"`       // the JSON text TLC printed (goes into the trace unchanged)
 }
 
 func TopicName(t string) string {
@@ -429,4 +431,43 @@ func (w *World) BuildC05(fl string, m CMsg, instv string) p2pmsg.Message {
 		return out
 	}
 	panic("unknown message type " + m.Ty)
+}
+
+// TraceContextOf concretises a trace class of GossipCrash.tla (nil: no trace field).
+func TraceContextOf(class string) *p2pmsg.TraceContext {
+	mk := func(t, s, f int) *p2pmsg.TraceContext {
+		fill := func(n int, b byte) []byte {
+			out := make([]byte, n)
+			for i := range out {
+				out[i] = b + byte(i)
+			}
+			return out
+		}
+		return &p2pmsg.TraceContext{TraceId: fill(t, 0x11), SpanId: fill(s, 0x51), TraceFlags: fill(f, 0x01)}
+	}
+	switch class {
+	case "", "absent":
+		return nil
+	case "ok":
+		return mk(16, 8, 1)
+	case "tid0":
+		return mk(0, 8, 1)
+	case "tid15":
+		return mk(15, 8, 1)
+	case "tid17":
+		return mk(17, 8, 1)
+	case "sid0":
+		return mk(16, 0, 1)
+	case "sid7":
+		return mk(16, 7, 1)
+	case "sid9":
+		return mk(16, 9, 1)
+	case "fl0":
+		return mk(16, 8, 0)
+	case "fl2":
+		return mk(16, 8, 2)
+	case "empty":
+		return &p2pmsg.TraceContext{}
+	}
+	panic("unknown trace class " + class)
 }
